@@ -471,3 +471,51 @@ def cis_gen(rng, tier):
             keys = [k for k in pool if rng.random() < 0.3] + [f.output_name for f in fs if rng.random() < 0.3]
             given = {k: rng.choice([1, (4,), (5, 6)]) for k in keys}
         yield {"internal_shapes": given, "pipeline": SimpleNamespace(functions=fs)}
+
+
+# ---- _data_loader (C19: the two dataset entry points differ only in where a value is read from) -------------------------
+XR = "pipefunc/map/xarray.py"
+ResultV = TRec("ResultV", {"output": TObj})
+DResults = TDict(TStr, ResultV)
+
+load_outputs = Contract("pipefunc/map/_load.py::load_outputs", params={"output_name": TStr, "run_folder": TObj},
+                        returns=TObj, trusted=True, pure=True,
+                        note="load_outputs(name, run_folder=...): what the folder holds for an output (C04's bounded check)")
+
+
+def _lo(S, name, folder):
+    if S.symbolic:
+        return S.uf("fn:load_outputs", TObj, name, folder)
+    return ("loaded-from-folder", name, folder)
+
+
+data_loader = Contract(
+    f"{XR}::_data_loader", params={"output_name": TStr, "run_folder": TOpt(TObj), "data": TOpt(DResults)},
+    defaults={"run_folder": None, "data": None}, returns=TObj,
+    raises=[("KeyError", lambda S, a: S.and_(S.not_(S.is_none(a.data)), lambda: S.not_(S.has(S.some(a.data), a.output_name)))),
+            ("AssertionError", lambda S, a: S.and_(S.is_none(a.data), S.is_none(a.run_folder)))],
+    ensures=lambda S, a, r, post: {
+        "given the results of a run: the output of that run": S.implies(S.not_(S.is_none(a.data)), lambda: S.eq(
+            r, S.some(a.data)[a.output_name].output)),
+        "otherwise: what the run folder holds": S.implies(S.is_none(a.data), lambda: S.eq(
+            r, _lo(S, a.output_name, S.some(a.run_folder)))),
+    },
+)
+DATA_LOADER = [load_outputs, data_loader]
+
+
+def dl_gen(rng, tier):
+    from types import SimpleNamespace
+    for q in range(200 if tier == "quick" else 2000):
+        data = None if rng.random() < 0.4 else {k: SimpleNamespace(output=f"out_{k}_{q}") for k in ("a", "b", "c") if rng.random() < 0.7}
+        yield {"output_name": rng.choice(("a", "b", "c")), "run_folder": None if rng.random() < 0.3 else f"folder{q % 3}", "data": data}
+
+
+def dl_call(fn, a):
+    import pipefunc.map.xarray as X
+    real = X.load_outputs
+    X.load_outputs = lambda name, run_folder: ("loaded-from-folder", name, run_folder)  # (the folder is not read here)
+    try:
+        return fn(a["output_name"], run_folder=a["run_folder"], data=a["data"])
+    finally:
+        X.load_outputs = real
